@@ -1392,6 +1392,16 @@ TIE_TRACKS = ["TieTracks." + t for t in (
     "flush_planned_base_size_increases_eq flush_planned_growth_limit_increases_eq initialize_track_sizes_eq "
     "stretch_auto_tracks_eq find_size_of_fr_eq ofOption_toOpt mulGe_eq mulLt_eq frAccumulate_eq_foldl acc_fold loop_spec "
     "loop_isSome").split()]
+# Props/TieTracks2.lean: the space-distribution functions of track_sizing.rs (extract/src/tracks2.rs -> Generated/TrackSizing2.lean)
+TIE_TRACKS2 = ["TieTracks2." + t for t in (
+    "distribute_space_up_to_limits_eq distribute_space_up_to_limits_ok distribute_space_up_to_limits_loop loop_spec loop_spec_ok "
+    "mapAccum_spec lt_fin_eq le_add_eq divF_subF_eq minF_eq minStep_eq minByTotalCmp_eq filter_filter' extMinList_eq_none "
+    "rat_neg_zero distribute_item_space_to_base_size_eq distribute_item_space_to_base_size_inner_eq distribute_item_space_to_growth_limit_eq "
+    "maximise_tracks_eq dist_length finish_base_map finish_growth_map finiteOr_eq feq_inf_eq mapM_growth_limit rat_zero_not_lt").split()]
+# Props/TieTracks3.lean: expand_flexible_tracks in interaction form (extract/src/tracks2.rs -> Generated/TrackSizing3.lean)
+TIE_TRACKS3 = ["TieTracks3." + t for t in (
+    "expand_flexible_tracks_run run_pure run_ofExcept run_bind run_call run_ite run_filterMapM maxByTotalCmp_eq indexRange_eq "
+    "expand_map redo_eq").split()]
 TIE_SLICES_TRUSTED = ("tier T (grid track initialisation): Generated/{TrackFns,GridInit}.lean are translated from src/style/grid.rs, "
                       "src/geometry.rs (AbsoluteAxis, Size::get_abs), src/compute/grid/types/{grid_track,grid_track_counts}.rs and "
                       "src/compute/grid/explicit_grid.rs on every run (verif/extract/src/{slices,gridinit}.rs, my code): u16 + - *, usize - % "
@@ -1408,13 +1418,27 @@ TIE_SLICES_TRUSTED = ("tier T (grid track initialisation): Generated/{TrackFns,G
                       "Slice.Ext.mulGe / mulLt; an extended value used in * / or stored in a plain f32 place "
                       "must be finite: Slice.Ext.toFinite, an explicit outcome shown unreachable by the tie; `tree` is used only as the calc "
                       "resolver and is not translated); Props/TieTrackFns.lean, Props/TieGridInit.lean and Props/TieTracks.lean prove every "
-                      "generated definition equal to Model/GridTracksInit.lean / Model/FrSize.lean for all arguments")
+                      "generated definition equal to Model/GridTracksInit.lean / Model/FrSize.lean for all arguments; "
+                      "Generated/TrackSizing2.lean (verif/extract/src/tracks2.rs): distribute_space_up_to_limits, maximise_tracks, "
+                      "distribute_item_space_to_growth_limit, distribute_item_space_to_base_size (`while` with `if d { break; }` inside is Slice.loopM "
+                      "under the fuel the model's callers pass, a loop over &mut elements that assigns outer locals is Slice.mapAccum, "
+                      "min_by(total_cmp) is Slice.Ext.minByTotalCmp (zeros not told apart), the closure parameter track_limit answers an Ext, "
+                      "(limit - x) / p is Slice.Ext.divF with the convention of Ext.subDiv, 0.01 is Num.ofNat 1 / Num.ofNat 100; vocabulary: "
+                      "Model/SliceOps2.lean); Props/TieTracks2.lean proves them equal to Model/FrSize.lean for all arguments and closures under "
+                      "the stated hypotheses -0.0 == 0.0 (maximise_tracks: also not 0.0 < 0.0 and, under max-content, finite growth limits); "
+                      "Generated/TrackSizing3.lean: expand_flexible_tracks as a program of Slice.ItemProg over an abstract GridItem "
+                      "(Model/SliceOps3.lean; its pure methods are parameters, max_content_contribution_cached is a program node, "
+                      "&axis_tracks[range] panics out of range, max_by(total_cmp) is Slice.maxByTotalCmp); Props/TieTracks3.lean: run with the "
+                      "oracle items of Model/FrSize.lean it answers expandFlexibleTracks")
 
 
 def _add_tie_slices(pid):
     c = PROPS[pid]
     for module, theorems in (("TaffyVerif.Props.TieTrackFns", TIE_TRACKFNS), ("TaffyVerif.Props.TieGridInit", TIE_GRIDINIT),
-                             ("TaffyVerif.Props.TieTracks", TIE_TRACKS)):
+                             ("TaffyVerif.Props.TieTracks", TIE_TRACKS), ("TaffyVerif.Props.TieTracks2", TIE_TRACKS2),
+                             ("TaffyVerif.Props.TieTracks3", TIE_TRACKS3)):
+        if pid == "C12" and module in ("TaffyVerif.Props.TieTracks2", "TaffyVerif.Props.TieTracks3"):
+            continue
         if module not in c["modules"]:
             c["modules"] = list(c["modules"]) + [module]
         c["theorems"] = list(c["theorems"]) + [t for t in theorems if t not in c["theorems"]]
